@@ -51,20 +51,22 @@ enum CallId : int {
   K_SET_RANDOM = 33,              // mutating: setRandom() (contents are not compared: process-wide generator)
   K_HELPERS = 34,                 // non-mutating: type-specific const helpers (angles, isometry, project / lift, ...)
   K_MOVED_VIEW_WRITE = 35,        // mutating: Map<G> m2(std::move(m)); m2 = value   (a moved-to view shows the same memory)
-  K_NCALLS = 36
+  K_RVALUE_VIEW_OPS = 36,         // non-mutating: operators and const members applied to RVALUE views
+                                  //   Map<G>(p) * g, std::move(view) + a, m.part() * x, m.part().inverse() ... write nothing
+  K_NCALLS = 37
 };
 
 inline const char* const kCallNames[K_NCALLS] = {
   "setIdentity", "assign_from", "mul_assign", "plus_assign", "coeffs_write_one", "data_write_one", "coeffs_assign_all",
   "copy_view_setIdentity", "map_assign_map", "part_assign", "part_reset", "part_update", "part_raw_write", "construct_into",
   "inverse", "log", "Ad", "matrix", "compose", "rminus", "rplus", "isApprox", "to_value", "cast", "part_read", "action",
-  "coeffs_read", "part_const_ops", "assign_from_temp_view", "value_from_temp_view", "part_to_value", "part_from_temp_view", "map_move_assign", "setRandom", "helpers", "moved_view_write"};
+  "coeffs_read", "part_const_ops", "assign_from_temp_view", "value_from_temp_view", "part_to_value", "part_from_temp_view", "map_move_assign", "setRandom", "helpers", "moved_view_write", "rvalue_view_ops"};
 
 inline bool call_mutates(int id) { return id <= K_CONSTRUCT_INTO || id == K_ASSIGN_FROM_TEMP_VIEW || id == K_PART_FROM_TEMP_VIEW ||
          id == K_MAP_MOVE_ASSIGN || id == K_SET_RANDOM || id == K_MOVED_VIEW_WRITE; }
 inline bool call_uses_part(int id) {
   return (id >= K_PART_ASSIGN && id <= K_PART_RAW_WRITE) || id == K_PART_READ || id == K_PART_CONST_OPS || id == K_PART_TO_VALUE ||
-         id == K_PART_FROM_TEMP_VIEW;
+         id == K_PART_FROM_TEMP_VIEW || id == K_RVALUE_VIEW_OPS;
 }
 
 struct Call {
